@@ -260,6 +260,74 @@ def scalar_cases(rng, bits, out):
     out.append("div_3x2 %d %s %s %s %s" % (bits, Z(u >> 64), Z(u & M64), Z(d), Z(recip2(d))))
 
 
+def ref_tag(n21, n0, d):
+    """branch of the (repaired) div_3x2_ref taken by a case, and the quotient it returns"""
+    n2, n1, d1, d0 = n21 >> 64, n21 & M64, d >> 64, d & M64
+    if n2 == d1:
+        neg = ((d0 << 64) - ((n1 << 64) | n0)) % BB
+        return ("ref_eq_2", B - 2) if neg > d else ("ref_eq_1", B - 1)
+    q, r = n21 // d1, n21 % d1
+    if q * d0 > ((r << 64) | n0):
+        q -= 1
+        r += d1
+        if r >= B:
+            return ("ref_c1_ovf", q)
+        if q * d0 > ((r << 64) | n0):
+            return ("ref_c2", q - 1)
+        return ("ref_c1", q)
+    return ("ref_c0", q)
+
+
+REF_TAGS = ["ref_eq_1", "ref_eq_2", "ref_c0", "ref_c1", "ref_c1_ovf", "ref_c2"]
+
+
+def ref_operands(rng):
+    """(n21, n0, d) within the conditions of use of div_3x2_ref, biased towards the correction
+    branches (divisor just above 2^127 with a large low word, quotient estimate 1 or 2 too large)"""
+    d1 = rng.choice([1 << 63, (1 << 63) + 1, (1 << 63) + rng.getrandbits(20), M64, M64 - 1,
+                     rng.getrandbits(64) | (1 << 63)])
+    d0 = rng.choice([0, 1, M64, M64 - 1, rng.getrandbits(64), rng.getrandbits(64)])
+    d = (d1 << 64) | d0
+    m = rng.random()
+    if m < 0.3:
+        q = rng.choice([0, 1, 2, M64, M64 - 1, rng.getrandbits(64), rng.getrandbits(32)])
+        N = min(q * d + rng.choice([0, 1, d - 1, rng.randrange(d)]), d * B - 1)
+    elif m < 0.5 and d0:
+        N = (d1 << 128) + rng.randrange(d0 * B)          # n21.high() == d.high()
+    elif m < 0.7:
+        q = rng.choice([M64, M64 - 1, rng.getrandbits(64) | (1 << 63)])
+        n21 = min(q * d1 + rng.choice([0, 1, 2, rng.getrandbits(10)]), d - 1)
+        N = (n21 << 64) | rng.choice([0, 1, M64, rng.getrandbits(64)])
+    else:
+        N = rng.randrange(d * B)
+    return N >> 64, N & M64, d
+
+
+def ref_cases(rng, bits, out):
+    """the reference kernels reciprocal_ref / div_2x1_ref / div_3x2_ref"""
+    d = rand_norm64(rng)
+    out.append("reciprocal_ref %d %s" % (bits, Z(d)))
+    out.append("div_2x1_ref %d %s %s" % (bits, Z(u_for_2x1(rng, d)), Z(d)))
+    n21, n0, d2 = ref_operands(rng)
+    out.append("div_3x2_ref %d %s %s %s" % (bits, Z(n21), Z(n0), Z(d2)))
+
+
+def ref_directed():
+    """at least four cases for every branch of div_3x2_ref (fixed seed; asserts reachability)"""
+    rng = random.Random(0x3232)
+    found = {t: [] for t in REF_TAGS}
+    for _ in range(4000):
+        n21, n0, d = ref_operands(rng)
+        t, q = ref_tag(n21, n0, d)
+        if len(found[t]) < 4:
+            found[t].append("div_3x2_ref 128 %s %s %s" % (Z(n21), Z(n0), Z(d)))
+        if all(len(v) >= 4 for v in found.values()):
+            break
+    missing = [t for t, v in found.items() if not v]
+    assert not missing, "div_3x2_ref branches not reached by the directed generator: %s" % missing
+    return [l for t in REF_TAGS for l in found[t]]
+
+
 def violations(rng, bits, out):
     """documented preconditions violated: the debug profile must panic (model: DebugPanic)"""
     dn, un = rand_norm64(rng), rng.getrandbits(63)
@@ -285,6 +353,11 @@ def violations(rng, bits, out):
     out.append("div_nxm_normalized %d L:1 L:1,8000000000000000" % bits)                  # numerator shorter
     out.append("div %d L:1,2,3 L:0,0" % bits)                                            # zero divisor: Panic
     out.append("div %d L: L:" % bits)
+    out.append("reciprocal_ref %d %s" % (bits, Z(un)))                                   # not normalised
+    out.append("div_2x1_ref %d %s %s" % (bits, Z(dn * B + 5), Z(dn)))                    # u >> 64 == d
+    out.append("div_2x1_ref %d %s %s" % (bits, Z(5), Z(un | 1)))                         # d < 2^63
+    out.append("div_3x2_ref %d %s %s %s" % (bits, Z(d2), Z(0), Z(d2)))                   # n21 == d
+    out.append("div_3x2_ref %d %s %s %s" % (bits, Z(1), Z(0), Z(rng.getrandbits(127))))  # d < 2^127
 
 
 # ------------------------------------------------------------------ directed search
@@ -493,6 +566,12 @@ def corpus():
                     if 0 <= N < B ** ln:
                         out.append(c_div(64 * ln, tl(N, ln), dv))
     out += D1_REGRESSIONS
+    # finding F21 (fixed, 1e97af4): the unrepaired div_3x2_ref returned B-1 resp. 0 here
+    out.append("div_3x2_ref 128 %s Z:0 %s" % (Z(1 << 127), Z((1 << 127) + B - 1)))
+    out.append("div_3x2_ref 128 %s Z:0 %s" % (Z(B), Z((1 << 127) + B - 1)))
+    out.append("reciprocal_ref 64 %s" % Z(1 << 63))
+    out.append("reciprocal_ref 64 %s" % Z(M64))
+    out += ref_directed()
     out += directed()
     return out + extra + r2_eq_cases()
 
@@ -514,6 +593,7 @@ def gen(rng, tier):
             small_cases(rng, bits, ln, out)
             small_cases(rng, bits, max(ln, 1), out)
             scalar_cases(rng, bits, out)
+            ref_cases(rng, bits, out)
         violations(rng, bits, out)
     # the grid of the property: lengths 1..12 x 1..12 independently
     for ln in range(1, 13):
@@ -523,6 +603,7 @@ def gen(rng, tier):
             small_cases(rng, 64 * ln, ln, out)
     for _ in range(100 * reps):
         scalar_cases(rng, 64, out)
+        ref_cases(rng, 128, out)
     return out
 
 
